@@ -43,7 +43,7 @@ type VerifEdit struct {
 	HasMinSeq   bool
 	MinSeq      uint64
 	SourceLevel int
-	Version    []VerifTable // the newly installed version
+	Version     []VerifTable // the newly installed version
 	// Stor is the storage the session was opened on (identifies the DB a process-wide hook is called for).
 	Stor storage.Storage
 	// Read returns all entries of a table of the new version (valid only during the hook call).
